@@ -205,6 +205,7 @@ func runC18(r *mon.Run, replay string) {
 	timed("shutdown", func() { phaseShutdown(r) })
 	timed("syncstalls", func() { phaseSyncStalls(r) })
 	timed("syncclose", func() { phaseSyncClose(r) })
+	timed("appdial", func() { phaseAppDial(r) })
 	join := startDeadlockScenarios(r)
 	timed("rhp", func() { phaseRHP(r) })
 	timed("rhpstalls", func() { phaseRHPStalls(r) })
@@ -220,6 +221,8 @@ func runC18(r *mon.Run, replay string) {
 	r.Floor("limit.fresh_burst_reached_full_limit", 5)
 	r.Floor("dropleak.final_bursts_served_completely", 3)
 	r.Floor("longwait.rpcs_served_after_waiting_longer_than_rpc_timeout", 4)
+	r.Floor("appdial.closes_with_application_dial_in_flight", 6)
+	r.Floor("appdial.closes_with_peer_loop_dial_in_flight", 2)
 	r.Floor("pinseq.ops", 200)
 	r.Floor("pinseq.handlers_released_individually", 60)
 	r.Floor("pinseq.leave_with_others_running", 20)
@@ -312,6 +315,10 @@ func runReplay(r *mon.Run, path string) {
 			var c SharedAddrCase
 			json.Unmarshal(h.Case, &c)
 			runSharedAddrCase(r, c)
+		case "app-dial":
+			var c AppDialCase
+			json.Unmarshal(h.Case, &c)
+			runAppDialCase(r, c)
 		case "long-wait":
 			var c LongWaitCase
 			json.Unmarshal(h.Case, &c)
